@@ -1657,6 +1657,24 @@ impl<'a> Exchange<'a> {
     }
 }
 
+/// Verification hooks.
+#[cfg(all(rs_matter_verif, feature = "groups"))]
+impl Exchange<'_> {
+    /// The group data counter value stashed on this exchange by
+    /// [`Exchange::initiate_group`] for `Session::pre_send` (not taken).
+    pub fn verif_group_data_ctr(&self) -> Option<u32> {
+        self.with_state(|state| {
+            let sess = self.id().session(&mut state.sessions);
+
+            Ok(sess.exchanges[self.id.exchange_index()]
+                .as_ref()
+                .and_then(|exch| exch.group_data_ctr))
+        })
+        .ok()
+        .flatten()
+    }
+}
+
 impl Drop for Exchange<'_> {
     fn drop(&mut self) {
         let closed = self.with_state(|state| {
